@@ -59,6 +59,8 @@ impl SExp {
                 }
                 big(*v)
             }
+            // the language's infinite constants have no rational value
+            SExp::Var(n) if n == "Infinity" || n == "MinusInfinity" => return None,
             SExp::Var(n) => env.get(n)?.clone(),
             SExp::Neg(e) => -e.eval(env)?,
             SExp::Add(a, b) => a.eval(env)? + b.eval(env)?,
@@ -119,7 +121,7 @@ impl SExp {
         match self {
             SExp::Num(_) => {}
             SExp::Var(n) => {
-                if !out.contains(n) {
+                if !out.contains(n) && n != "Infinity" && n != "MinusInfinity" {
                     out.push(n.clone())
                 }
             }
@@ -222,6 +224,9 @@ impl SExp {
         let bin = |op: BinOp, a: &SExp, b: &SExp| Exp::BinOp(op, Box::new(r(a)), Box::new(r(b)));
         match self {
             SExp::Num(v) => Exp::Number(*v),
+            // what the text front-end substitutes for the standard constants
+            SExp::Var(n) if n == "Infinity" => Exp::Number(f64::INFINITY),
+            SExp::Var(n) if n == "MinusInfinity" => Exp::Number(f64::NEG_INFINITY),
             SExp::Var(n) => Exp::Variable(n.clone()),
             SExp::Neg(e) => Exp::UnOp(UnOp::Neg, Box::new(r(e))),
             SExp::Add(a, b) => bin(BinOp::Add, a, b),
